@@ -146,6 +146,9 @@ func (w *World) noteSpecTypes() {
 		case *SLet:
 			walk(sf, n.Val)
 			walk(sf, n.Body)
+		case *SAssert:
+			note(sf, n.Type)
+			walk(sf, n.X)
 		}
 	}
 	for _, sf := range w.Specs {
@@ -160,14 +163,26 @@ func (w *World) noteSpecTypes() {
 			cs = append(cs, f.Requires...)
 			cs = append(cs, f.Ensures...)
 			cs = append(cs, f.Panics...)
+			cs = append(cs, f.Exits...)
 			for _, l := range f.Loops {
 				cs = append(cs, l.Invariants...)
 			}
 			for _, l := range f.Iters {
 				cs = append(cs, l.Invariants...)
+				cs = append(cs, l.Visits...)
 			}
 			for _, c := range cs {
 				walk(sf, c.Expr)
+			}
+			for _, a := range f.Assigns {
+				if a.Expr != nil {
+					walk(sf, a.Expr)
+				}
+			}
+			for _, fr := range f.Fresh {
+				if fr.When != nil {
+					walk(sf, fr.When)
+				}
 			}
 		}
 	}
@@ -309,6 +324,9 @@ func cmdCheck(args []string) int {
 func runExec(ex *Exec) (obls []*Obligation, err error) {
 	defer func() {
 		if r := recover(); r != nil {
+			if os.Getenv("GOVC_PANIC") != "" {
+				panic(r)
+			}
 			switch e := r.(type) {
 			case specErr:
 				err = fmt.Errorf("contract error: %s", e.msg)
@@ -349,12 +367,38 @@ func report(o *Options, w *World, prop string, seed int, all []*Obligation, repo
 			siteUnknown[k] = true
 		}
 	}
+	// A return site that no feasible path reaches is dead code under the contracts (reported, not fatal);
+	// an unsatisfiable precondition, or a function none of whose return sites is reachable, trips the guard.
+	var unreachable []string
+	funcCovered := map[string]bool{}
+	funcSeen := map[string]*Obligation{}
 	for _, k := range siteOrder {
 		nCover++
+		fo := siteFirst[k]
+		isPre := strings.HasSuffix(k, "/cover.pre")
+		if !isPre {
+			if funcSeen[fo.Func] == nil {
+				funcSeen[fo.Func] = fo
+			}
+		}
 		if siteCovered[k] {
 			nCovered++
+			if !isPre {
+				funcCovered[fo.Func] = true
+			}
 		} else if !siteUnknown[k] {
-			vacuous = append(vacuous, siteFirst[k])
+			if isPre {
+				vacuous = append(vacuous, fo)
+			} else {
+				unreachable = append(unreachable, k)
+			}
+		} else if !isPre {
+			funcCovered[fo.Func] = true // undecided cover: not evidence of vacuity
+		}
+	}
+	for f, fo := range funcSeen {
+		if !funcCovered[f] {
+			vacuous = append(vacuous, fo)
 		}
 	}
 	for _, ob := range all {
@@ -462,7 +506,7 @@ func report(o *Options, w *World, prop string, seed int, all []*Obligation, repo
 	assumptions = append(assumptions, propertyNotCovered[prop]...)
 	ev := map[string]interface{}{
 		"property_id": prop, "tier": o.tier, "seed": seed, "level": "proof", "wall_s": round3(time.Since(t0).Seconds()),
-		"violations": len(failed) + len(undecided),
+		"violations":  len(failed) + len(undecided),
 		"assumptions": assumptions,
 		"coverage": map[string]interface{}{
 			"obligations": nProof, "discharged": nDis,
@@ -471,8 +515,8 @@ func report(o *Options, w *World, prop string, seed int, all []*Obligation, repo
 			"samples":      samples, "functions_under_contract": fuc, "inlined": inl, "by_backend": d.byBack,
 			"solver_time_s": round3(d.solverS), "load_s": round3(tLoad), "vcgen_s": round3(tGen), "paths": paths,
 			"assumed_contracts": asm, "uncontracted_callees": hav,
-			"vacuity":        map[string]interface{}{"covers": nCover, "covered": nCovered, "vacuous": len(vacuous)},
-			"solver_splits":  d.splits,
+			"vacuity":             map[string]interface{}{"covers": nCover, "covered": nCovered, "vacuous": len(vacuous)},
+			"solver_splits":       d.splits,
 			"contract_token_scan": scan, "per_function": reports,
 			"failed": names(failed), "undecided": names(undecided),
 		},
